@@ -162,8 +162,8 @@ type ccWorld struct {
 	nodes   []*ccNode
 	byFunc  map[*types.Func]*ccNode
 	decls   map[*types.Func]*ast.FuncDecl
-	alias   map[*types.Var]int   // local variable / parameter -> shared variable it may be derived from
-	retAl   map[*types.Func]int  // package-local function -> shared variable its result may be derived from
+	alias   map[*types.Var]int  // local variable / parameter -> shared variable it may be derived from
+	retAl   map[*types.Func]int // package-local function -> shared variable its result may be derived from
 	nGo     int
 	nTimer  int
 	nCb     int
@@ -907,15 +907,7 @@ func (k *ccWalker) call(c *ast.CallExpr, st ccLocks, fr *ccFrame) {
 					write = true
 				}
 				if write {
-					k.arg(f.X, st, true)
-					if _, ok := ast.Unparen(f.X).(*ast.Ident); !ok {
-						k.lhsBaseWrite(f.X, st)
-					} else if i, ok := k.w.sharedVar(f.X); ok {
-						_ = i // recorded by arg only when derived; a plain value variable: record the write
-						if _, isD := k.w.derived(f.X); !isD {
-							k.add(i, true, st, f.X.Pos(), "")
-						}
-					}
+					k.lhsBaseWrite(f.X, st)
 				} else {
 					k.expr(f.X, st)
 				}
@@ -982,9 +974,6 @@ func (k *ccWalker) expr(e ast.Expr, st ccLocks) {
 		if x.Op == token.AND {
 			// address taken: a write (whoever receives the pointer may store through it)
 			k.lhsBaseWrite(x.X, st)
-			if cl, ok := ast.Unparen(x.X).(*ast.CompositeLit); ok {
-				_ = cl
-			}
 			return
 		}
 		k.expr(x.X, st)
